@@ -47,7 +47,7 @@ def case(job):
     if empty_t:
         tt = ""
     with drive.scratch_dir("c12") as d:
-        proj = project.Project(os.path.join(d, "p"), vcs=tool)
+        proj = project.Project(os.path.join(d, "p"), vcs=tool, gitfile=(seed % 5 == 2))
         fv = fakevcs.FakeVCS(os.path.join(d, "fake"), tool)
         if tool == "git":
             fv.set(tags=[], status="", branches="* main 1234abc [origin/main] msg\n", remote="")
